@@ -326,7 +326,7 @@ def run(ctx):
                 ctx.violation(dict(v, build=kind, module=MOD, case={"kind": "require", "where": v["where"]}))
         oobs = []
         helds = [{}, {"a": 0.5, "b": 0.25}, {"a": 0.5, "b": 0.25, "c": 0.25}, {"a": -0.25, "b": 0.75}]
-        tgts = [None, {"a": 0.5, "b": 0.25}, {"a": 0.4, "b": 0.25}, {"a": 0.5, "b": 0.3, "c": 0.2}, {"a": -0.25, "b": 0.75}, {"c": 0.25}, {"a": 0.625}]
+        tgts = [None, {"a": 0.5, "b": 0.25}, {"a": 0.4, "b": 0.25}, {"a": 0.5, "b": 0.3, "c": 0.2}, {"a": -0.25, "b": 0.75}, {"c": 0.25}, {"a": 0.625}, {"a": -0.5, "b": 0.75}, {"a": -0.125, "b": 0.75}, {"a": -0.25}]
         for held in helds:
             for tg in tgts:
                 for tol in (0.0, 0.1, 0.25, 0.5):
